@@ -11,6 +11,7 @@ import collections
 import functools
 import inspect
 import sys
+import threading
 
 from pycel.excelutil import (
     AddressCell,
@@ -31,6 +32,23 @@ FUNC_META = 'excel_func_meta'
 ALL_ARG_INDICES = frozenset(range(512))
 
 star_args = set()
+
+# the name spaces of the formulas whose excel functions are executing
+_calling = threading.local()
+
+
+def calling_name_space(f):
+    """The name space of the formula that is calling excel function f
+
+    The metadata of a function is shared by every formula, workbook and
+    thread which uses the function: its 'name_space' is the name space of
+    the formula which loaded the function last, it is used only when the
+    function is called without its wrappers
+    """
+    stack = getattr(_calling, 'stack', None)
+    if stack and '_C_' in stack[-1]:
+        return stack[-1]
+    return getattr(f, FUNC_META)['name_space']
 
 
 def excel_helper(cse_params=None,
@@ -317,7 +335,15 @@ def refs_wrapper(f, name_space, param_indices=None):
 
     @functools.wraps(f)
     def wrapper(*args):
-        return f(*tuple(resolve_args(args)))
+        try:
+            stack = _calling.stack
+        except AttributeError:
+            stack = _calling.stack = []
+        stack.append(name_space)
+        try:
+            return f(*tuple(resolve_args(args)))
+        finally:
+            stack.pop()
 
     return wrapper
 
